@@ -136,6 +136,10 @@ def _get_reference_residue(residue, force_field):
     else:
         resname = residue['resname']
     reference_block = force_field.reference_graphs[resname]
+    if 'modification' in residue or 'mutation' in residue:
+        # The reference gets annotated below. Work on a copy, so the block
+        # of the force field itself is not changed for all later residues.
+        reference_block = reference_block.copy()
 
     if 'modification' in residue:
         modifications = residue['modification']
